@@ -498,11 +498,11 @@ class Engine:
                     f"and is needed by {conjunction_needed} rule{'s'[:conjunction_needed ^ 1]}"
                 )
 
-                if disjunction_needed and not rule_block.disjunction:
-                    errors.append(
-                        f"Rule block {name_or_index} does not have any disjunction operator "
-                        f"and is needed by {disjunction_needed} rule{'s'[:disjunction_needed ^ 1]}"
-                    )
+            if disjunction_needed and not rule_block.disjunction:
+                errors.append(
+                    f"Rule block {name_or_index} does not have any disjunction operator "
+                    f"and is needed by {disjunction_needed} rule{'s'[:disjunction_needed ^ 1]}"
+                )
 
             if implication_needed and not rule_block.implication:
                 errors.append(
